@@ -306,12 +306,14 @@ def rule_scan(ck: Check, repo: Repo) -> None:
         def atom(self, text, node, it):
             return {"path.suffix": "has_suffix", "path.stem in self.license_map": "stem_known",
                     "path.name in self.license_map": "name_known", "path.name in LICENSE_MAP": "name_known",
+                    "_LICENSEREF_PATTERN.match(path.name)": "name_lref",
                     "_LICENSEREF_PATTERN.match(path.stem)": "stem_lref"}.get(text)
 
     def ref(v):
         # 'a LICENSES/ file whose whole name is an SPDX identifier is reported as lacking a file extension': the whole
         # name is looked at before the part in front of the last dot (Python-2.0.1 / Python-2.0, OLDAP-2.0.1 / OLDAP-2.0)
-        if not v("has_suffix") or v("name_known"):
+        # (a LicenseRef- name that an earlier entry of the scan registered in the map is not an SPDX identifier)
+        if not v("has_suffix") or (v("name_known") and not v("name_lref")):
             return ("raise", "SpdxIdentifierNotFoundError")
         if v("stem_known") or v("stem_lref"):
             return ("return", "path.stem")
